@@ -196,6 +196,19 @@ func registerIntrinsics(e *Exec) {
 		if len(so) == 1 && len(sn) == 1 {
 			return ret(st, StringV{C: &CMapByte{Src: str.C, Old: e.tc.BVConst(uint64(so[0]), 8), New: e.tc.BVConst(uint64(sn[0]), 8)}, Off: str.Off, Len: str.Len})
 		}
+		if len(so) >= 2 {
+			// a multi-byte pattern that provably occurs nowhere in the string leaves it unchanged (decided by the solver
+			// with a fresh index; e.g. "\r\n" after every "\n" has been replaced)
+			k := e.tc.FreshVar("ra.idx", 64)
+			c := e.tc.And(e.tc.Sle(e.tc.Int(0), k), e.tc.Sle(e.tc.Add(k, e.tc.Int(int64(len(so)))), str.Len))
+			for j := 0; j < len(so); j++ {
+				b := e.sel(str.C, e.tc.Add(e.tc.Add(str.Off, k), e.tc.Int(int64(j))))
+				c = e.tc.And(c, e.tc.Eq(b, e.tc.BVConst(uint64(so[j]), 8)))
+			}
+			if !e.feasible(st, c) {
+				return ret(st, str)
+			}
+		}
 		panic(unsupported("strings.ReplaceAll of a symbolic string with multi-byte patterns"))
 	}
 	in["(time.Time).Format"] = func(e *Exec, st *State, fn *ssa.Function, args []Value) []Outcome {
